@@ -440,7 +440,9 @@ var corpus = map[string][]string{
 		"a{b:c}d{e:f;g:h}/* \U0001F600 */i{}", "@font-face { font-family: x; src: url(a) }\n@keyframes k { from { a: b } 50% { c: d } }"},
 	"xml": {"<a b=\"c\nd\" e='f\r\ng'>\n<h i=\"j\tk\"/>x</a>", "<?xml version=\"1.0\"?>\n<a b=\"c\u00e9\">text<!-- c --><d/>\r\n<![CDATA[x]]></a>", "<!DOCTYPE a [<!ENTITY e \"v\">]><a x='1' y=\"2\">&e;</a>"},
 	"html": {"<!doctype html>\n<html><head><title>t\u00e9</title><script>var a = '</b>';\n</script></head>\r\n<body class=a id='b'>x<br/><!-- c --><style>a{b:c}</style></body></html>",
-		"<div a=\"b\nc\" d='e\r\nf'>\n<p g=\"h\ti\">x</p></div>", "<p a=1 b='2' c=\"3\" d>text &amp; more<svg><path d=\"M0\"/></svg><textarea>\U0001F600</textarea>"},
+		"<div a=\"b\nc\" d='e\r\nf'>\n<p g=\"h\ti\">x</p></div>", "<p a=1 b='2' c=\"3\" d>text &amp; more<svg><path d=\"M0\"/></svg><textarea>\U0001F600</textarea>",
+		// foreign content whose inner names are not lower case (the lexer leaves them alone), all on one line
+		"<p a=1><svg viewBox=\"0 0 1 1\"><linearGradient id=\"g\"><G></G></linearGradient><clipPath/>t</svg><math><MI>x</MI><mo>+</mo></math>"},
 }
 var suiteNames = []string{"js", "jslex", "json", "css", "xml", "html"}
 
